@@ -831,6 +831,7 @@ func scnPool(out *ScnOut, seed int64, dur, limit time.Duration) {
 	simDup := 0
 	for r := 0; r < simRounds && simDup == 0; r++ {
 		c := mk(uint32(160+r%30), fmt.Sprintf("simultaneous-%d", r), 98)
+		expect[key(c)] = c.Height()
 		var ready, done sync.WaitGroup
 		var goFlag atomic.Bool
 		for i := 0; i < G; i++ {
